@@ -2078,9 +2078,15 @@ impl<'a> Socket<'a> {
                     // Clear the remote endpoint, or we'll send an RST there.
                     self.set_state(State::Closed);
                     self.tuple = None;
-                } else if ack_len == 0 {
+                } else if ack_len == 0
+                    && (repr.window_len as usize) << self.remote_win_scale.unwrap_or(0)
+                        == self.remote_win_len
+                {
                     // Duplicate ACK; our FIN has not been acknowledged.
                     // Per RFC 9293 (3.10.7.4), send a challenge ACK.
+                    // (A segment that changes the send window is not a duplicate: it falls
+                    // through, or data still queued behind a closed window would never learn
+                    // that the window has opened.)
                     return self.challenge_ack_reply(cx, ip_repr, repr);
                 }
                 // Partial ACK: fall through to advance SND.UNA normally.
